@@ -322,6 +322,29 @@ theorem matchRef_on_grid (pw : K → K) (hp : PowLike pw) (x y z : List K) (n : 
   simp only [knots_getElem, List.getElem_range] at this
   rw [this, sumRange_succ_self]
 
+/-- the knots are fixed points: the match does not move them -/
+theorem matchRef_on_grid_knots (pw : K → K) (hp : PowLike pw) (x y z z' : List K) (n : ℕ)
+    (s target refRule : String) (tr rr : Rule)
+    (hx : x.Pairwise (· < ·)) (hn : 2 ≤ n) (hm : 2 ≤ x.length)
+    (hz : z.length = (x.length - 1) * n + 1) (hs : IsStrategy s)
+    (htr : Rule.ofString? target = some tr) (hrr : Rule.ofString? refRule = some rr)
+    (h : matchRef pw (gridL x n) z x y none none s target refRule = .ok (some z')) :
+    ∀ k, k < x.length → arrFn z'.toArray (k * n) = arrFn z.toArray (k * n) := by
+  have H : MatchHyp (gridL x n) x none none s target refRule
+      { inX := x, idxX := knots x.length n, idxRef := List.range x.length } tr rr :=
+    ⟨gridL_strictIncr x n hx hn (by omega), fixedPoints_on_grid x n hx hn (by omega) s hs, htr, hrr,
+      by simp [knots_length], knots_pairwise _ n hn, by simpa [knots_length] using hm⟩
+  obtain ⟨z'', h1, _, h3⟩ := H.result pw hp z y (by rw [hz, gridL_length])
+  rw [h1] at h
+  have : z'' = z' := by injection h with h; injection h
+  subst this
+  intro k hk
+  rw [h3]
+  apply H.unchanged pw hp y
+  apply H.unchanged_of
+  right; right
+  exact List.mem_map.mpr ⟨k, List.mem_range.mpr hk, rfl⟩
+
 /-- inside original interval `k` the grid is uniform, so the rectangle integral over the interval
 is the plain sum of the `n` samples times the step `(x[k+1] - x[k]) / n` -/
 theorem winIntegral_rect_block (x : List K) (n k : ℕ) (hn : 2 ≤ n) (hk : k + 1 < x.length)
